@@ -53,6 +53,11 @@ PROPS = {
         "trusted_base": ["sort.Sort is modelled as a stable insertion sort (generated lists are homogeneous, so equal elements are indistinguishable)", "Go map iteration order is outside the model: maps are iterated sorted or have one key"],
         "assumptions": ["every render uses a freshly compiled template (C04 is separate)"],
     },
+    "C12": {
+        "suites": [{"name": "c12-scope", "proj": ["reference", "class", "output", "driver"]}],
+        "trusted_base": ["the whole-interpreter frame invariant (a construct leaves the frames below its own untouched) is decided by the reference-environment suite; the theorems cover the frame combinator, set, child contexts, key validation and the regenerated effect table"],
+        "assumptions": ["caller Context and set Globals are deep-compared before/after every execution of generated programs"],
+    },
     "C14": {
         "suites": [{"name": "c14-fail", "proj": ["variants"]}],
         "trusted_base": ["bytes.Buffer / io.Writer plumbing is modelled as an append-only byte list with save/restore for buffering constructs", "the prefix property of the unbuffered variant (output only grows) is decided by the fault-injection suite, not yet by a theorem over the whole interpreter"],
